@@ -1,6 +1,6 @@
 #!/bin/sh
 # run every quick check on the current tree; print one line per property
-cd /verif
+cd "$(dirname "$0")/.."
 git -C /repo status --short | grep -q . && { echo "WARNING: /repo has uncommitted changes"; git -C /repo status --short | head -3; }
 tier=${1:-quick}
 for i in 01 02 03 04 05 06 07 08 09 10 11 12 13 14 15 16 17 18 19 20; do
